@@ -100,6 +100,18 @@ time-bounded ones that are inside their window. -/
 def effectiveSigners (signers : List Key) (timed : List TimedSig) : List Key :=
   signers ++ (timed.filter (·.valid)).map (·.key)
 
+/-- an RRSIG over one of the extra RRsets with an explicit Signer's Name (0 = ".",
+n > 0 another name), cryptographically sound and inside its window. -/
+structure NamedSig where
+  key : Key
+  signer : Nat
+deriving DecidableEq, Repr
+
+/-- which of them can count for anchors owned by ".": `usableSignatureCandidate`
+wants the key's owner name to equal the signer name, so only those signed as ".". -/
+def namedSigners (named : List NamedSig) : List Key :=
+  (named.filter (fun s => s.signer == 0)).map (·.key)
+
 /-- every DNSKEY record of the answer section, whatever its owner:
 `ExtractRRSet(rrs, "", TypeDNSKEY)` and the `for _, rr := range resp.Answer`
 loop that builds `kskFetched` do not look at owner names. -/
